@@ -65,7 +65,8 @@ Proof. induction l as [|x t IH]; cbn; [reflexivity|]. now rewrite IH. Qed.
 Lemma sel_arg_vars_listed (s : sel) : forall n, In n (sel_arg_vars s) -> In n (sel_variables s).
 Proof.
   induction s using sel_ind'; intros n0; cbn [sel_arg_vars sel_variables]; rewrite !go_flat.
-  - intros Hin. apply in_app_or in Hin as [Hin|Hin]; apply in_or_app; [left; now apply flat_args_incl|right].
+  - intros Hin. apply in_app_or in Hin as [Hin|Hin]; apply in_or_app; right; apply in_or_app; [left; now apply flat_args_incl|right].
+    apply in_or_app. right.
     apply in_flat_map in Hin as (x & Hx & Hin). apply in_flat_map. exists x. split; [exact Hx|].
     rewrite Forall_forall in H. now apply H.
   - intros Hin. apply in_flat_map in Hin as (x & Hx & Hin). apply in_flat_map. exists x. split; [exact Hx|].
@@ -76,7 +77,46 @@ Qed.
 Theorem argument_variables_are_listed (ss : list sel) n : In n (arg_vars ss) -> In n (variables_list ss).
 Proof.
   unfold arg_vars, variables_list. intros Hin. apply in_flat_map in Hin as (x & Hx & Hin).
-  apply in_flat_map. exists x. split; [exact Hx|]. now apply sel_arg_vars_listed.
+  apply in_or_app. right. apply in_flat_map. exists x. split; [exact Hx|]. now apply sel_arg_vars_listed.
+Qed.
+
+(* ... and so is every variable that is the value of a DIRECTIVE argument, of a field or of a fragment (since fix 0156dcf) *)
+Lemma dir_top_vars_app a b : dir_top_vars (a ++ b) = dir_top_vars a ++ dir_top_vars b.
+Proof. unfold dir_top_vars. apply flat_map_app. Qed.
+Lemma dir_top_vars_flat {A} (f : A -> list directive) l n :
+  In n (dir_top_vars (flat_map f l)) <-> exists x, In x l /\ In n (dir_top_vars (f x)).
+Proof.
+  induction l as [|y t IH]; cbn [flat_map].
+  - split; [intros []|intros (x & [] & _)].
+  - rewrite dir_top_vars_app, in_app_iff, IH. split.
+    + intros [H|(x & Hx & H)]; [exists y; split; [now left|exact H]|exists x; split; [now right|exact H]].
+    + intros (x & [<-|Hx] & H); [now left|right; exists x; split; assumption].
+Qed.
+Lemma frag_go sub :
+  (fix go (l : list sel) := match l with [] => [] | x :: t => frag_dirs x ++ go t end) sub = flat_map frag_dirs sub.
+Proof. induction sub as [|x t IH]; cbn; [reflexivity|]. now rewrite IH. Qed.
+Lemma sel_directive_top_vars_listed (s : sel) : forall n, In n (sel_directive_top_vars s) ->
+  In n (dir_top_vars (frag_dirs s)) \/ In n (sel_variables s).
+Proof.
+  induction s using sel_ind'; intros n0; cbn [sel_directive_top_vars sel_variables frag_dirs]; rewrite ?go_flat, ?frag_go.
+  - intros Hin. right. apply in_app_or in Hin as [Hin|Hin]; apply in_or_app; [left; exact Hin|right].
+    apply in_or_app. right. apply in_flat_map in Hin as (x & Hx & Hin). rewrite Forall_forall in H.
+    destruct (H x Hx n0 Hin) as [Hd|Hv]; apply in_or_app.
+    + left. apply dir_top_vars_flat. exists x. split; assumption.
+    + right. apply in_flat_map. exists x. split; assumption.
+  - intros Hin. apply in_app_or in Hin as [Hin|Hin].
+    + left. rewrite dir_top_vars_app. apply in_or_app. left. exact Hin.
+    + apply in_flat_map in Hin as (x & Hx & Hin). rewrite Forall_forall in H.
+      destruct (H x Hx n0 Hin) as [Hd|Hv].
+      * left. rewrite dir_top_vars_app. apply in_or_app. right. apply dir_top_vars_flat. exists x. split; assumption.
+      * right. apply in_flat_map. exists x. split; assumption.
+Qed.
+Theorem directive_variables_are_listed (ss : list sel) n : In n (directive_top_vars ss) -> In n (variables_list ss).
+Proof.
+  unfold directive_top_vars, variables_list. intros Hin. apply in_flat_map in Hin as (x & Hx & Hin).
+  apply in_or_app. destruct (sel_directive_top_vars_listed x n Hin) as [Hd|Hv].
+  - left. apply dir_top_vars_flat. exists x. split; assumption.
+  - right. apply in_flat_map. exists x. split; assumption.
 Qed.
 
 (* ... and is forwarded with the client's value whenever the client sent one *)
@@ -93,12 +133,12 @@ Proof.
   destruct (assoc m client_vars) eqn:E; [|contradiction]. destruct Hin as [Heq|[]]. inversion Heq; subst. auto.
 Qed.
 
-(* Refuted on the faithful model (and on the code: listed findings): a variable used only inside a directive is NOT
-   listed, hence never forwarded; and a client-declared default is never forwarded either (it is not in the request's variables) *)
+(* Refuted on the faithful model: a variable used only INSIDE a list or object value of a directive argument is NOT
+   listed, hence never forwarded (since fix 0156dcf a variable that is itself the argument's value is: above); and a client-declared default is never forwarded either (it is not in the request's variables) *)
 Theorem directive_variables_not_listed :
   exists ss n, In n (directive_vars ss) /\ ~ In n (variables_list ss).
 Proof.
-  exists [SField "f" "f" [] [("skip", [("if", VVar "v")])] []], "v". split; [cbn; auto|]. cbn. tauto.
+  exists [SField "f" "f" [] [("tagged", [("with", VList [VVar "v"])])] []], "v". split; [cbn; auto|]. cbn. tauto.
 Qed.
 
 (* a follow-up step sends its own `id` variable: every other forwarded variable keeps the client's value, but a client
